@@ -18,6 +18,39 @@ SHALLOW = ('copy', 'copy_with', 'cast_config', 'cast_partial')
 KINDS = DEEP + SHALLOW
 
 
+import typing
+
+
+def annotated_fn(lr: typing.Annotated[float, targets.T1] = 0.1,
+                 wd: typing.Annotated[float, targets.T2, targets.T3] = 0.0,
+                 name: str = 'n', sub: typing.Any = None):
+  return targets.Rec('annotated_fn', [('lr', lr), ('wd', wd), ('name', name), ('sub', sub)], (), {})
+
+
+def annotated_root(r):
+  """A configuration over a callable whose parameters carry tags through Annotated[...], after
+  the user removed / replaced / added some of those tags."""
+  inner = fdl.Config(annotated_fn, lr=1.0)
+  root = fdl.Config(annotated_fn, wd=2.0, sub=[inner, {'k': inner}])
+  for n in (root, inner):
+    for arg in ('lr', 'wd', 'name'):
+      x = r.random()
+      try:
+        if x < 0.25:
+          fdl.clear_tags(n, arg)
+        elif x < 0.45:
+          ts = list(fdl.get_tags(n, arg))
+          if ts:
+            fdl.remove_tag(n, arg, r.choice(ts))
+        elif x < 0.6:
+          fdl.set_tags(n, arg, [r.choice(targets.TAGS)])
+        elif x < 0.75:
+          fdl.add_tag(n, arg, r.choice(targets.TAGS))
+      except Exception:
+        pass
+  return root
+
+
 def make_copy(kind, cfg):
   if kind == 'deepcopy':
     return copy.deepcopy(cfg)
@@ -50,6 +83,8 @@ def cases(tier, r):
   for _ in range(500 if tier == 'quick' else 8000):
     yield 'dag', {'graph': True, 'seed': r.getrandbits(48), 'size': r.choice([3, 6, 10]),
                   'kind': r.choice(KINDS)}
+  for _ in range(120 if tier == 'quick' else 2000):
+    yield 'annotated', {'graph': True, 'annotated': True, 'seed': r.getrandbits(48), 'kind': r.choice(KINDS)}
 
 
 def mutable_ids(root, deep=True):
@@ -76,7 +111,10 @@ def execute(case):
   kind = case['kind']
   if case.get('graph'):
     r = random.Random(case['seed'])
-    root = graphs.gen_graph(r, size=case['size'], positional=True, tags=True)
+    if case.get('annotated'):
+      root = annotated_root(r)
+    else:
+      root = graphs.gen_graph(r, size=case['size'], positional=True, tags=True)
     if not isinstance(root, fdl.Buildable):
       root = fdl.Config(graphs.node_fn(1, 0), p=root)
     before = graphs.canon(root)
